@@ -448,6 +448,12 @@ fn cb_programs(rec: &Rec) -> Vec<Vec<CbOp>> {
         vec![CbOp::SetName(b"Host.Example".to_vec(), vec![]), CbOp::Name],
         vec![CbOp::SetName(b"www".to_vec(), nm("zone.test")), CbOp::Name],
         vec![CbOp::SetName(b"a..b".to_vec(), vec![])],
+        // read, change, read, change to another value of the same size, read: whatever the table remembers
+        // about a record between two calls of one callback must follow the changes
+        vec![CbOp::Name, CbOp::SetRawName(nm("new.x")), CbOp::Name, CbOp::SetRawName(nm("old.y")), CbOp::Name],
+        vec![CbOp::Name, CbOp::SetName(b"aa.bb".to_vec(), vec![]), CbOp::Name, CbOp::SetName(b"cc.dd".to_vec(), vec![]), CbOp::Name, CbOp::RrType],
+        vec![CbOp::RrTtl, CbOp::SetRrTtl(1), CbOp::RrTtl, CbOp::SetRrTtl(2), CbOp::RrTtl, CbOp::RrClass],
+        vec![CbOp::RrType, CbOp::SetRawName(nm("new.x")), CbOp::RrType, CbOp::RrClass, CbOp::RrTtl, CbOp::Name],
         vec![CbOp::Delete],
         vec![CbOp::Delete, CbOp::Delete],
         vec![CbOp::Delete, CbOp::SetRawName(nm("x"))],
@@ -457,6 +463,7 @@ fn cb_programs(rec: &Rec) -> Vec<Vec<CbOp>> {
         v.push(vec![CbOp::RrIp(4)]);
         v.push(vec![CbOp::RrIp(32)]);
         v.push(vec![CbOp::SetRrIp(vec![9, 8, 7, 6]), CbOp::RrIp(16)]);
+        v.push(vec![CbOp::RrIp(4), CbOp::SetRrIp(vec![9, 8, 7, 6]), CbOp::RrIp(4), CbOp::SetRrIp(vec![5, 4, 3, 2]), CbOp::RrIp(4)]);
     }
     if rec.rtype == T_AAAA {
         v.push(vec![CbOp::RrIp(16)]);
